@@ -127,6 +127,9 @@ PROPS = {
         "runs": [
             {"mode": "model", "kinds": ["lru", "tlru", "utlru"], "profiles": ["shape", "shape", "recycle", "churn", "tiny", "noop"], "noinsr": True,
              "cases_quick": 4800, "cases_thorough": 60000, "trigger_any": bits("EVICT_NONTRIV"), "typesets": 7},
+            # uses made through the range forms (insert_range updates, range lookups) count like their single forms
+            {"mode": "model", "kinds": ["lru", "tlru", "utlru"], "profiles": ["ranges", "ranges", "shape"], "salt": "r",
+             "cases_quick": 2400, "cases_thorough": 30000, "trigger_any": bits("EVICT_NONTRIV", "EVICT_VICTIM_UPD"), "typesets": 7},
         ],
     },
     "C11": {
@@ -165,6 +168,8 @@ PROPS = {
         "runs": [
             {"mode": "model", "kinds": ["mru"], "profiles": ["shape", "shape", "recycle", "churn", "tiny", "noop"], "noinsr": True,
              "cases_quick": 12000, "cases_thorough": 150000, "trigger_any": bits("EVICT_VICTIM_UPD", "MRU_NEXT"), "typesets": 7},
+            {"mode": "model", "kinds": ["mru"], "profiles": ["ranges", "ranges", "shape"], "salt": "r",
+             "cases_quick": 4000, "cases_thorough": 50000, "trigger_any": bits("EVICT_VICTIM_UPD", "MRU_NEXT"), "typesets": 7},
         ],
     },
     "C14": {
@@ -193,6 +198,9 @@ PROPS = {
              "cases_quick": 8000, "cases_thorough": 100000, "trigger_any": bits("EVICT_AFTER_GAP", "EVICT_CHAIN3"), "typesets": 7},
             {"mode": "model", "kinds": ["rr"], "profiles": ["spread"], "noinsr": True, "salt": "s", "nops": (1800, 2600), "nops_thorough": (1800, 6000),
              "cases_quick": 160, "cases_thorough": 5000, "trigger_any": bits("EVICT_CHAIN3"), "typesets": 1},
+            # the same long runs with every insert issued through insert_range (one element per call)
+            {"mode": "model", "kinds": ["rr"], "profiles": ["spread"], "salt": "sr", "nops": (1800, 2600), "nops_thorough": (1800, 6000),
+             "cases_quick": 120, "cases_thorough": 4000, "trigger_any": bits("EVICT_CHAIN3"), "typesets": 1},
         ],
     },
     "C16": {
